@@ -42,14 +42,18 @@ def _guarded(mod, ev, holder, tier):
     state = {"failing": None, "calls_after_fail": 0}
     cap = SHRINK_CALL_CAP[tier]
 
-    def run(case):
-        if state["failing"] is not None:
+    def run(case, fn=None):
+        # fn is given by state machines (one step of a history): no shrink cap there, a skipped step would corrupt the history
+        if fn is None and state["failing"] is not None:
             state["calls_after_fail"] += 1
             if state["calls_after_fail"] > cap and canon(case) != state["failing"]:
                 return  # stop exploring shrinks; Hypothesis will replay the best known failure
         holder["case"] = case
         try:
-            mod.check_case(case, ev)
+            if fn is not None:
+                fn()
+            else:
+                mod.check_case(case, ev)
         except Violation as v:
             known = match_open(mod.ID, v.sig)
             if known is not None:
@@ -108,7 +112,10 @@ def run_shard(pid: str, tier: str, seed: int, shard: int, nshards: int) -> dict:
             steps = mod.STEPS[tier]
             guarded = _guarded(mod, ev, holder, tier)
             Machine = mod.machine(tier, ev, holder, guarded)
-            run_state_machine_as_test(hseed(shard_seed)(Machine), settings=settings(stateful_step_count=steps, **common))
+            mcommon = dict(common)
+            if tier == "quick":
+                mcommon["phases"] = [Phase.generate]  # histories are short; an unshrunk history is still a replay
+            run_state_machine_as_test(hseed(shard_seed)(Machine), settings=settings(stateful_step_count=steps, **mcommon))
         elif hasattr(mod, "strategy"):
             guarded = _guarded(mod, ev, holder, tier)
 
